@@ -25,6 +25,7 @@ pub mod ribq;
 pub mod gate;
 pub mod roto;
 pub mod manager;
+pub mod ribmetrics;
 
 /// A pause-point handler installed per thread by a harness.
 pub type PointFn = Arc<dyn Fn(&'static str) + Send + Sync>;
